@@ -23,7 +23,7 @@ pub struct NodeCase {
 }
 
 fn langs() -> Vec<LangId> {
-    vec![LangId::Core, LangId::Arith, LangId::Sdql, LangId::ArrayLang, LangId::Arith2]
+    vec![LangId::Core, LangId::Arith, LangId::Sdql, LangId::ArrayLang, LangId::Arith2, LangId::Pay]
 }
 
 fn child_leaf(id: usize, args: &[Name]) -> Tm {
@@ -38,6 +38,7 @@ pub fn gen_node(sig: &LangSig, alphabet: usize, src: &mut Src) -> Tm {
             Field::Slot => args.push(Arg::S(src.pick(alphabet) as Name)),
             Field::PayU32 => args.push(Arg::P(format!("{}", src.pick(5)))),
             Field::PaySym => args.push(Arg::P(["s", "t"][src.pick(2)].to_string())),
+            Field::PayOther(v) => args.push(Arg::P(v[src.pick(v.len())].to_string())),
             Field::Kid(nb) => {
                 let bs: Vec<Name> = (0..*nb).map(|_| src.pick(alphabet) as Name).collect();
                 let k = src.pick(4.min(alphabet + 1));
@@ -208,6 +209,7 @@ fn run(c: &NodeCase, obs: &mut Obs) -> Result<(), String> {
         LangId::Sdql => run_l::<Sdql>(c, obs),
         LangId::ArrayLang => run_l::<ArrayLang>(c, obs),
         LangId::Arith2 => run_l::<Arith2>(c, obs),
+        LangId::Pay => run_l::<Pay>(c, obs),
         _ => Err("language without direct constructors".into()),
     }
 }
@@ -385,7 +387,7 @@ fn decode(ch: &[u16], a: u16, b: u16) -> NodeCase {
 fn exhaustive_cases() -> Vec<NodeCase> {
     // every operator of Core / Sdql / ArrayLang with every slot assignment over 3 names, children with 0..2 arguments
     let mut out = Vec::new();
-    for lang in [LangId::Core, LangId::Sdql, LangId::ArrayLang] {
+    for lang in [LangId::Core, LangId::Sdql, LangId::ArrayLang, LangId::Pay] {
         let sig = lang.sig();
         for o in &sig.ops {
             // positions: slots, binders, child args (each child: 2 args, distinct)
@@ -410,6 +412,13 @@ fn exhaustive_cases() -> Vec<NodeCase> {
                             let mut w = v.clone();
                             w.push(Arg::P("s".into()));
                             next.push(w);
+                        }
+                        Field::PayOther(vals) => {
+                            for x in vals.iter().take(2) {
+                                let mut w = v.clone();
+                                w.push(Arg::P(x.to_string()));
+                                next.push(w);
+                            }
                         }
                         Field::Kid(nb) => {
                             let mut bss: Vec<Vec<Name>> = vec![vec![]];
@@ -464,7 +473,7 @@ pub fn property(tier: Tier) -> Property {
             run,
             panic_is_violation: true,
             render: |c: &NodeCase| format!("[{:?}] {} ~ {}", c.lang, c.node.txt(), c.other.txt()),
-            rule: "exhaustive: every operator of Core, Sdql and ArrayLang with every assignment of 3 names to its slot fields and binders and children with 0-2 distinct arguments (repeated and shadowing names included), each compared with the next assignment; non-trivial = binder next to a free slot, or a repeated name",
+            rule: "exhaustive: every operator of Core, Sdql, ArrayLang and Pay (bool / i64 / char payloads, a payload next to a slot and a bound child) with every assignment of 3 names to its slot fields and binders and children with 0-2 distinct arguments (repeated and shadowing names included), each compared with the next assignment; non-trivial = binder next to a free slot, or a repeated name",
             case_timeout_s: 60,
             exhaustive: true,
         }),
@@ -477,7 +486,7 @@ pub fn property(tier: Tier) -> Property {
             run,
             panic_is_violation: true,
             render: |c: &NodeCase| format!("[{:?},{:?}] {} ~ {} ren={:?}", c.lang, c.naming, c.node.txt(), c.other.txt(), c.ren),
-            rule: "random model e-nodes of 5 derived languages (plain slots, Bind, nested Bind, Bind before/after a free child, payloads), 4-name alphabet with repeated and shadowing names, child invocations with up to 3 arguments, 4 slot spellings; laws checked on the node, on a renamed + alpha-renamed copy and on a second node (renamed / perturbed / independent); non-trivial = binder next to a free slot, or a repeated name; distinct by rendered case",
+            rule: "random model e-nodes of 6 derived languages (plain slots, Bind, nested Bind, Bind before/after a free child, payloads), 4-name alphabet with repeated and shadowing names, child invocations with up to 3 arguments, 4 slot spellings; laws checked on the node, on a renamed + alpha-renamed copy and on a second node (renamed / perturbed / independent); non-trivial = binder next to a free slot, or a repeated name; distinct by rendered case",
             case_timeout_s: 60,
             exhaustive: false,
         }),
